@@ -86,6 +86,8 @@ def idkey(prog: Program) -> RuleResult:
                 for t in n.targets:
                     if isinstance(t, ast.Subscript) and src(t.value) == f"{owner}.{table}" and src(t.slice) == f"id({obj})":
                         restore = True
+            if isinstance(n, ast.Call) and call_name(n) == "pop" and isinstance(n.func, ast.Attribute) and src(n.func.value) == f"{owner}.{table}" and n.args and src(n.args[0]) == f"id({obj})":
+                restore = True
         # (c) the key was memoised (with its keep-alive obligation) by a dominating call in the same function
         cfg = CFG(f.node)
         nid = cfg.node_of(node)
@@ -322,5 +324,63 @@ def dao_collect(prog: Program) -> RuleResult:
     return r
 
 
+def dao_window(prog: Program) -> RuleResult:
+    """An entry that is taken out of the conversion memo for a moment must be back before the conversion descends into related objects."""
+    from ..callgraph import self_closure
+
+    r = RuleResult("DAO-WINDOW", "a memo entry that is removed temporarily is restored before related objects are converted", floor=1)
+    dao = prog.cls(DAO + ".DataAccessObject")
+    for f in sorted(dao.methods.values(), key=lambda x: x.qual):
+        cfg = CFG(f.node)
+        removes = []
+        for n in cfg.nodes:
+            st = n.stmt
+            if n.kind != "stmt" or st is None:
+                continue
+            if isinstance(st, ast.Delete) and any(isinstance(t, ast.Subscript) and src(t.value).endswith(".memo") for t in st.targets):
+                removes.append((n, src(st.targets[0].slice)))
+            for c in calls_in(st):
+                if call_name(c) == "pop" and isinstance(c.func, ast.Attribute) and src(c.func.value).endswith(".memo") and c.args:
+                    removes.append((n, src(c.args[0])))
+        if not removes:
+            continue
+        # methods of the class through which related objects get converted (their closure calls to_dao on something)
+        descending = set()
+        for name in {m for q in prog.mro(dao.qual) if q in prog.classes for m in prog.classes[q].methods}:
+            m = prog.lookup(dao.qual, name)
+            if m is None or m is f or name in ("to_dao",):
+                continue
+            seen, _ = self_closure(prog, dao.qual, m, False)
+            if any(call_name(c) == "to_dao" for g in seen for c in calls_in(g.node)):
+                descending.add(name)
+        for rn, key in removes:
+            restores = [n for n in cfg.nodes if n.kind == "stmt" and isinstance(n.stmt, ast.Assign) and any(isinstance(t, ast.Subscript) and src(t.value).endswith(".memo") and src(t.slice) == key for t in n.stmt.targets)]
+            barrier = set()
+            for rs in restores:
+                barrier.add(rs.id)
+                # a restore under `if <saved> is not None:` - the test stands for the restore (the saved value is set where the entry was removed)
+                for t in cfg.nodes:
+                    if t.kind == "test" and isinstance(t.stmt, ast.If) and t.true_succ is not None and cfg.dominates(t.true_succ, rs.id) and rs.stmt in list(ast.walk(t.stmt)) \
+                            and isinstance(rs.stmt.value, ast.Name) and rs.stmt.value.id in {x.id for x in ast.walk(t.stmt.test) if isinstance(x, ast.Name)}:
+                        barrier.add(t.id)
+            desc = []
+            for n in cfg.nodes:
+                if n.stmt is None or n.kind not in ("stmt", "test", "for"):
+                    continue
+                for part in cfg._own_parts(n):
+                    for c in calls_in(part):
+                        if isinstance(c.func, ast.Attribute) and is_self_attr(c.func) and c.func.attr in descending:
+                            desc.append((n, c))
+            if not desc:
+                raise AnalysisError(f"DAO-WINDOW: {f.short} removes a memo entry but no descending call was recognised")
+            r.check(bool(restores), f"{f.short}#restored", site(f, rn.stmt), src(rn.stmt), "the removed entry is put back", f"the memo entry for {key} is removed and never restored")
+            for i, (n, c) in enumerate(sorted(desc, key=lambda nc: (nc[1].lineno, nc[1].col_offset))):
+                p = cfg.path_avoiding(rn.id, n.id, barrier) if restores else [rn.id, n.id]
+                r.check(p is None, f"{f.short}#{c.func.attr}[{i}]-after-restore", site(f, c), src(c)[:100], "runs with the object back in the memo",
+                        f"{c.func.attr}() converts related objects on a path {cfg.describe(p) if p else ''} on which the memo entry for {key} is still removed: "
+                        f"a related object that refers back gets a second DAO for it, and the round trip returns copies instead of one shared object")
+    return r
+
+
 def run(prog: Program, tier: str) -> List[RuleResult]:
-    return [idkey(prog), dao_order(prog), dao_direction(prog), dao_collect(prog)]
+    return [idkey(prog), dao_order(prog), dao_direction(prog), dao_collect(prog), dao_window(prog)]
